@@ -26,9 +26,10 @@
   arbitrary type with `+` (the driver uses `Rat`); `count` and the deltas are `Rat` (the tie
   feeds dyadic deltas so that the impl's float `count` is exact).
 
-  The only re-ordering against the code: `count += 1.` is executed when the generator is
-  resumed, the model does it at the end of the step that yielded (nothing can observe `count`
-  in between; the driver reports `count - 1` as "count while suspended at the yield").
+  Two simplifications against the text of the code, both removed again in the generator-level
+  machine `ALV.Model.C16Gen` (which the driver runs and `ALV.Lemmas.C16Gen` proves equivalent):
+  `count += 1.` is executed when the generator is resumed — here at the end of the step that
+  yielded; the summing loop and the `to_remove` pass are one function (`poll`).
 
   A finished generator stays finished: `next` raises StopIteration for ever, `add` still
   appends to `_not_playing` (nobody reads it any more), `keep` can still be assigned.
@@ -104,13 +105,6 @@ def mrun [Add α] (zero : α) : MState α → List (Op α) → MState α × List
     let r := mstep zero s op
     let t := mrun zero r.1 ops
     (t.1, r.2 :: t.2)
-
-/-- the states after each operation (for the tie: queue / playing lengths, count) -/
-def mtrace [Add α] (zero : α) : MState α → List (Op α) → List (MState α × Obs α)
-  | _, [] => []
-  | s, op :: ops =>
-    let r := mstep zero s op
-    r :: mtrace zero r.1 ops
 
 /-! ### ControlStream (lazy_stream.py:436-462): `while True: yield self.value` -/
 
